@@ -200,9 +200,12 @@ class Probe:
     def fields(self):
         rec, key, rng = self.rec, self.key, self.ctx.rng
         x, r, t = self._field_points()
+        x0 = x.copy()
         u = _real(rec, self.sol.displacement(x), 'displacement', key)
         e = _real(rec, self.sol.strain(x), 'strain', key)
         s = _real(rec, self.sol.stress(x), 'stress', key)
+        rec.check(np.array_equal(x, x0), 'evaluating displacement, strain and stress does not modify the array of positions handed in',
+                  f'{key}:input-unmodified:pos')
         ok = rec.check(u.shape == (len(x), 3) and e.shape == (len(x), 3, 3) and s.shape == (len(x), 3, 3),
                        'fields of an (N,3) array of points have shapes (N,3), (N,3,3), (N,3,3)', f'{key}:shape-array',
                        shapes=[u.shape, e.shape, s.shape])
@@ -292,6 +295,28 @@ class Probe:
         rec.close(1e-6 * self.sc_s[:, None, None], s2, np.einsum('ia,pab,jb->pij', R, self.fs, R), 'covariance: sigma\'(Rx) = R sigma(x) R^T',
                   f'{key}:covariance:stress')
 
+    # -- repeated evaluation ------------------------------------------------------------
+    def repeat(self, K):
+        """After every other read (other points, other shapes, K, preln): the same
+        quantity asked for again is bit-identical, and the caller's arrays are untouched."""
+        rec, sol, key = self.rec, self.sol, self.key
+        if not self.ok:
+            return
+        x = self.x.copy()
+        u2, e2, s2 = (np.real(np.asarray(f(x))) for f in (sol.displacement, sol.strain, sol.stress))
+        rec.check(np.array_equal(x, self.x), 'evaluating displacement, strain and stress does not modify the array of positions handed in',
+                  f'{key}:input-unmodified:pos')
+        for name, a, b in (('displacement', u2, self.fu), ('strain', e2, self.fe), ('stress', s2, self.fs)):
+            rec.check(a.shape == b.shape and np.array_equal(a, b), f'repeated evaluation of {name} at the same points gives the identical result',
+                      f'{key}:repeat:{name}', max_diff=float(np.abs(a - b).max()) if a.shape == b.shape else 'shape')
+        K2 = np.real(np.asarray(sol.K_tensor))
+        rec.check(np.array_equal(K2, K), 'repeated evaluation of K_tensor gives the identical result', f'{key}:repeat:K')
+        xl = self.x[7].tolist()
+        xl0 = list(xl)
+        a, b = np.asarray(sol.stress(xl)), np.asarray(sol.stress(xl))
+        rec.check(xl == xl0 and np.array_equal(a, b), 'single point given as a list: the list is untouched and the result repeats', f'{key}:repeat:single')
+        rec.count('repeat:evaluated')
+
     def all(self):
         self.attributes()
         K = self.ktensor()
@@ -300,6 +325,7 @@ class Probe:
         self.energy()
         self.jump()
         self.fields()
+        self.repeat(K)
         return K if self.ok else None
 
 
@@ -390,7 +416,7 @@ def run_stroh(ctx, am):
 
 
 # ----------------------------------------------------------------------------
-NU_CLASSES = ['typical', 'zero', 'negative', 'high']
+NU_CLASSES = P.NU_CLASSES
 
 
 def run_iso(ctx, am):
@@ -448,19 +474,7 @@ def run_iso(ctx, am):
                 K = pb.all()
                 if K is not None:
                     done = True
-                    kmax = np.abs(K).max()
-                    rec.close(1e-9 * mu, sol.mu, mu, 'mu attribute is the shear modulus', f'{key}:mu')
-                    rec.close(1e-9, sol.nu, nu, 'nu attribute is Poisson\'s ratio', f'{key}:nu')
-                    rec.close(3e-8 * kmax, K, O.iso_K(mu, nu, m, n),
-                              'isotropic K_tensor = mu/(1-nu) (mm + nn) + mu xi xi for every m/n assignment', f'{key}:K-closed-form:{_mnkind(mn_cls)}')
-                    rec.close(0, sol.K_coeff, O.iso_K_coeff(mu, nu, b_d, m, n),
-                              'isotropic K_coeff = mu (cos^2 beta + sin^2 beta/(1-nu))', f'{key}:K_coeff-closed-form', rtol=1e-7)
-                    uo, eo, so = O.iso_fields(mu, nu, b_d, m, n, pb.x)
-                    rec.close(1e-9 * pb.sc_e[:, None, None], pb.fe, eo, 'isotropic strain equals the polar closed form (Hirth-Lothe)', f'{key}:closed-form:strain')
-                    rec.close(1e-9 * pb.sc_s[:, None, None], pb.fs, so, 'isotropic stress equals the polar closed form (Hirth-Lothe)', f'{key}:closed-form:stress')
-                    du, duo = pb.fu - pb.fu[3], uo - uo[3]
-                    rec.close(1e-9 * pb.bmag * (1 + np.abs(np.log(pb.r / pb.ls)))[:, None], du, duo,
-                              'isotropic displacement equals the closed form up to a rigid translation', f'{key}:closed-form:u')
+                    iso_closed_form(rec, sol, pb, K, mu, nu, b_d, m, n, mn_cls, key)
 
                     def build(R):
                         return am.defect.IsotropicVolterraDislocation(C, b_c.copy(), transform=R @ T, m=R @ m, n=R @ n)
@@ -472,6 +486,23 @@ def run_iso(ctx, am):
 
 def _mnkind(mn_cls):
     return 'letters' if len(mn_cls) == 2 else mn_cls.split('-')[0]
+
+
+def iso_closed_form(rec, sol, pb, K, mu, nu, b_d, m, n, mn_cls, key):
+    """Closed-form clauses of the isotropic solver on a probed solution."""
+    kmax = np.abs(K).max()
+    rec.close(1e-9 * mu, sol.mu, mu, 'mu attribute is the shear modulus', f'{key}:mu')
+    rec.close(1e-9, sol.nu, nu, 'nu attribute is Poisson\'s ratio', f'{key}:nu')
+    rec.close(3e-8 * kmax, K, O.iso_K(mu, nu, m, n),
+              'isotropic K_tensor = mu/(1-nu) (mm + nn) + mu xi xi for every m/n assignment', f'{key}:K-closed-form:{_mnkind(mn_cls)}')
+    rec.close(0, sol.K_coeff, O.iso_K_coeff(mu, nu, b_d, m, n),
+              'isotropic K_coeff = mu (cos^2 beta + sin^2 beta/(1-nu))', f'{key}:K_coeff-closed-form', rtol=1e-7)
+    uo, eo, so = O.iso_fields(mu, nu, b_d, m, n, pb.x)
+    rec.close(1e-9 * pb.sc_e[:, None, None], pb.fe, eo, 'isotropic strain equals the polar closed form (Hirth-Lothe)', f'{key}:closed-form:strain')
+    rec.close(1e-9 * pb.sc_s[:, None, None], pb.fs, so, 'isotropic stress equals the polar closed form (Hirth-Lothe)', f'{key}:closed-form:stress')
+    du, duo = pb.fu - pb.fu[3], uo - uo[3]
+    rec.close(1e-9 * pb.bmag * (1 + np.abs(np.log(pb.r / pb.ls)))[:, None], du, duo,
+              'isotropic displacement equals the closed form up to a rigid translation', f'{key}:closed-form:u')
 
 
 # ----------------------------------------------------------------------------
